@@ -548,6 +548,7 @@ private:
   int bool_options_ {0};
   int option_flag_save_ = 0;
   std::string option_file_save_;
+  int option_file_nesting_ {0};
 
   // The filename stub for returning multiple solutions.
   std::string solution_stub_;
